@@ -149,6 +149,56 @@ impl Stats {
     }
 }
 
+/// Progress slots read by the supervisor process: which run each worker is executing right now.
+pub mod progress {
+    use std::os::unix::fs::FileExt;
+    use std::sync::atomic::{AtomicUsize, Ordering};
+    static NEXT: AtomicUsize = AtomicUsize::new(0);
+    thread_local! {
+        static SLOT: std::cell::RefCell<Option<std::fs::File>> = std::cell::RefCell::new(None);
+    }
+    pub const IDLE: u64 = u64::MAX;
+    pub fn set(i: u64) {
+        let dir = match std::env::var("VSIM_PROGRESS") {
+            Ok(d) => d,
+            Err(_) => return,
+        };
+        SLOT.with(|s| {
+            let mut s = s.borrow_mut();
+            if s.is_none() {
+                let k = NEXT.fetch_add(1, Ordering::Relaxed);
+                *s = std::fs::OpenOptions::new().create(true).write(true).open(format!("{}/w{:03}", dir, k)).ok();
+            }
+            if let Some(f) = s.as_ref() {
+                let mut b = [0u8; 16];
+                b[..8].copy_from_slice(&i.to_le_bytes());
+                let t = std::time::SystemTime::now().duration_since(std::time::UNIX_EPOCH).map(|d| d.as_secs()).unwrap_or(0);
+                b[8..].copy_from_slice(&t.to_le_bytes());
+                let _ = f.write_at(&b, 0);
+            }
+        });
+    }
+    /// (run index, unix seconds when it started) per worker slot
+    pub fn read_all(dir: &str) -> Vec<(u64, u64)> {
+        let mut v = Vec::new();
+        if let Ok(rd) = std::fs::read_dir(dir) {
+            for e in rd.flatten() {
+                if let Ok(b) = std::fs::read(e.path()) {
+                    if b.len() >= 16 {
+                        let i = u64::from_le_bytes(b[..8].try_into().unwrap());
+                        let t = u64::from_le_bytes(b[8..16].try_into().unwrap());
+                        if i != IDLE {
+                            v.push((i, t));
+                        }
+                    }
+                }
+            }
+        }
+        v.sort();
+        v
+    }
+}
+
 pub fn make_scenario(p: &dyn Property, seed: u64, i: u64, tier: Tier) -> Scenario {
     let ss = sub_seed(seed, p.id(), i);
     let mut rng = Rng::new(ss);
@@ -191,7 +241,9 @@ pub fn search(p: &dyn Property, seed: u64, tier: Tier, n: u64, trace_file: Optio
                         break;
                     }
                     let sc = make_scenario(p, seed, i, tier);
+                    progress::set(i);
                     let out = p.run(&sc);
+                    progress::set(progress::IDLE);
                     st.evaluations += 1;
                     st.ticks += out.ticks;
                     if let Some(r) = out.skipped {
